@@ -159,26 +159,33 @@ Definition enc_raw (e : encoder) (b : list byte) : outcome encoder :=
 Definition enc_map_header (e : encoder) (tag : N) (size : N) : outcome encoder :=
   let* e1 := put e (enc_key tag 2) in put e1 (enc_varint size).
 
-(* EncodeNested.  The nested message is abstract: [msize] is what csproto.Size(m) returns,
-   [flavour] which interface it satisfies, [mres] what its marshal call does:
-   Some b = success producing b (MarshalTo: written at the cursor), None = error. *)
+(* EncodeNested.  The nested message is abstract: [fl] says which interface it satisfies,
+   [msize] is what csproto.Size(m) returns (consulted on the MarshalTo path only), [mres] what its
+   marshal call does: Some b = success producing b (MarshalTo: written at the cursor with indexed
+   stores into e.p[e.offset:]), None = error.  The boolean is "returned a nil error". *)
 Inductive nflavour := NMarshalTo | NMarshal | NFallback.
 Definition enc_nested (e : encoder) (tag : N) (fl : nflavour) (msize : nat) (mres : option (list byte))
-  : outcome (encoder * bool (* true = returned nil *)) :=
-  let* e1 := put e (enc_key tag 2) in
-  let* e2 := put e1 (enc_varint (N.of_nat msize)) in
-  match mres with
-  | None => Ok (e2, false)
-  | Some b =>
-    match fl with
-    | NMarshalTo =>
-        (* MarshalTo(e.p[e.offset:]) writes len b bytes with indexed stores into the sub-slice *)
-        let* e3 := put e2 b in
-        Ok ({| ebuf := ebuf e3; eoff := (eoff e2 + msize)%nat |}, true)
-    | NMarshal | NFallback =>
-        let* e3 := put_copy e2 b in
-        Ok ({| ebuf := ebuf e3; eoff := (eoff e2 + msize)%nat |}, true)
-    end
+  : outcome (encoder * bool) :=
+  match fl with
+  | NMarshalTo =>
+      let* e1 := put e (enc_key tag 2) in
+      let* e2 := put e1 (enc_varint (N.of_nat msize)) in
+      match mres with
+      | None => Ok (e2, false)
+      | Some b =>
+          let* e3 := put e2 b in
+          Ok ({| ebuf := ebuf e3; eoff := (eoff e2 + msize)%nat |}, true)
+      end
+  | NMarshal | NFallback =>
+      (* marshal first; the length prefix and the cursor follow len(buf) *)
+      match mres with
+      | None => Ok (e, false)
+      | Some b =>
+          let* e1 := put e (enc_key tag 2) in
+          let* e2 := put e1 (enc_varint (N.of_nat (length b))) in
+          let* e3 := put_copy e2 b in
+          Ok (e3, true)
+      end
   end.
 
 Inductive eop :=
@@ -234,7 +241,6 @@ Definition esize (op : eop) : nat :=
 (* ------------------------------------------------------------------------------------------ *)
 (* Decoder *)
 Record decoder := { dbuf : list byte; doff : nat; dfast : bool }.
-Definition drest (d : decoder) : list byte := skipn (doff d) (dbuf d).
 Definition dadv (d : decoder) (n : nat) : decoder :=
   {| dbuf := dbuf d; doff := (doff d + n)%nat; dfast := dfast d |}.
 Definition at_eof (d : decoder) : bool := (length (dbuf d) <=? doff d)%nat.
@@ -246,46 +252,70 @@ Definition max_len : N := 2147483647.
 Inductive dres (A : Type) := DOk (a : A) (d : decoder) | DErr (d : decoder) | DPanic.
 Arguments DOk {A} a d. Arguments DErr {A} d. Arguments DPanic {A}.
 
+(* Go slice expressions are partial: p[lo:] panics when lo > len(p), p[lo:hi] when not lo <= hi <= len(p)
+   (cap = len for every buffer the decoder sees through these expressions).  Every slice expression of
+   decoder.go goes through one of these two, so "no call panics" is a statement about the guards. *)
+Definition go_from {A} (p : list byte) (lo : nat) (k : list byte -> dres A) : dres A :=
+  if (length p <? lo)%nat then DPanic else k (skipn lo p).
+Definition go_sub {A} (p : list byte) (lo hi : nat) (k : list byte -> dres A) : dres A :=
+  if ((lo <=? hi) && (hi <=? length p))%nat then k (slice p lo hi) else DPanic.
+(* binary.LittleEndian.Uint32/Uint64(p): indexes p[w-1] first *)
+Definition go_le {A} (w : nat) (p : list byte) (k : N -> dres A) : dres A :=
+  if (length p <? w)%nat then DPanic else k (le_val (firstn w p)).
+
 Definition dec_tag (d : decoder) : dres (N * N) :=
   if at_eof d then DErr d else
-  match dec_varint (drest d) with
+  go_from (dbuf d) (doff d) (fun rest =>
+  match dec_varint rest with
   | inr _ => DErr d
   | inl (v, n) =>
       if (v <? 1) || (max_tag <? N.shiftr v 3) then DErr d
       else DOk (N.shiftr v 3, N.land v 7) (dadv d n)
-  end.
+  end).
 
-(* one element of a scalar kind read at the cursor: value and encoded length *)
-Definition read_elem (k : skind) (p : list byte) : option (Z * nat) :=
+(* one element of a scalar kind read from p = d.p[d.offset:]: value and encoded length.
+   Varint kinds: DecodeVarint / DecodeZigZag + the range test; fixed32/64 (and sfixed through the
+   generated cast): DecodeFixed32/64 with their own length test; float/double: the explicit
+   `len(d.p)-d.offset < w` guard followed by binary.LittleEndian.UintNN *)
+Definition read_elem {A} (k : skind) (d : decoder) (p : list byte) (kont : option (Z * nat) -> dres A) : dres A :=
   if is_varint_kind k then
     match dec_varint p with
-    | inr _ => None
-    | inl (v, n) => match of_wire k v with None => None | Some z => Some (z, n) end
+    | inr _ => kont None
+    | inl (v, n) => match of_wire k v with None => kont None | Some z => kont (Some (z, n)) end
     end
   else
     let w := width_of k in
-    if (length p <? w)%nat then None
-    else match of_wire k (le_val (firstn w p)) with None => None | Some z => Some (z, w) end.
+    match k with
+    | KFloat | KDouble =>
+        if (length (dbuf d) - doff d <? w)%nat then kont None
+        else go_le w p (fun n => match of_wire k n with None => kont None | Some z => kont (Some (z, w)) end)
+    | _ =>
+        if (length p <? w)%nat then kont None
+        else match of_wire k (le_val (firstn w p)) with None => kont None | Some z => kont (Some (z, w)) end
+    end.
 
 (* DecodeBool ... DecodeFloat64 *)
 Definition dec_scalar (d : decoder) (k : skind) : dres Z :=
   if at_eof d then DErr d else
-  match read_elem k (drest d) with
+  go_from (dbuf d) (doff d) (fun rest =>
+  read_elem k d rest (fun r =>
+  match r with
   | None => DErr d
   | Some (z, n) => DOk z (dadv d n)
-  end.
+  end)).
 
 (* DecodeBytes: returns a sub-slice of the input *)
 Definition dec_bytes (d : decoder) : dres (list byte) :=
   if at_eof d then DErr d else
-  match dec_varint (drest d) with
+  go_from (dbuf d) (doff d) (fun rest =>
+  match dec_varint rest with
   | inr _ => DErr d
   | inl (l, n) =>
       if max_len <? l then DErr d
       else if N.of_nat (length (dbuf d)) <? N.of_nat (doff d + n) + l then DErr d
       else let nb := N.to_nat l in
-           DOk (slice (dbuf d) (doff d + n) (doff d + n + nb)) (dadv d (n + nb))
-  end.
+           go_sub (dbuf d) (doff d + n) (doff d + n + nb) (fun b => DOk b (dadv d (n + nb)))
+  end).
 
 (* the packed readers' loop: for nRead < l { EOF test; element; nRead += n; offset += n } *)
 Fixpoint packed_loop (fuel : nat) (k : skind) (l : N) (d : decoder) (nread : N) (acc : list Z)
@@ -294,10 +324,16 @@ Fixpoint packed_loop (fuel : nat) (k : skind) (l : N) (d : decoder) (nread : N) 
     match fuel with
     | O => DErr d        (* not reachable with fuel > remaining bytes *)
     | S f =>
-      if at_eof d then DErr d else
-      match read_elem k (drest d) with
-      | None => DErr d
-      | Some (z, n) => packed_loop f k l (dadv d n) (nread + N.of_nat n) (z :: acc)
+      let body :=
+        go_from (dbuf d) (doff d) (fun rest =>
+        read_elem k d rest (fun r =>
+        match r with
+        | None => DErr d
+        | Some (z, n) => packed_loop f k l (dadv d n) (nread + N.of_nat n) (z :: acc)
+        end)) in
+      match k with
+      | KFloat | KDouble => body                 (* their EOF test is the width guard inside read_elem *)
+      | _ => if at_eof d then DErr d else body
       end
     end
   else if nread =? l then DOk (rev acc) d else DErr d.
@@ -307,7 +343,8 @@ Definition packed_reserve (k : skind) (l : N) : N := match k with KFloat => l / 
 
 Definition dec_packed (d : decoder) (k : skind) : dres (list Z) :=
   if at_eof d then DErr d else
-  match dec_varint (drest d) with
+  go_from (dbuf d) (doff d) (fun rest =>
+  match dec_varint rest with
   | inr _ => DErr d
   | inl (l, n) =>
       let d1 := dadv d n in
@@ -316,47 +353,65 @@ Definition dec_packed (d : decoder) (k : skind) : dres (list Z) :=
                   else packed_loop (S (length (dbuf d))) k l d1 0 []
       | _ => packed_loop (S (length (dbuf d))) k l d1 0 []
       end
+  end).
+
+(* elements make() reserves up front in a call of DecodePackedX at d (0 when the call fails earlier) *)
+Definition dec_packed_reserve (d : decoder) (k : skind) : N :=
+  if at_eof d then 0 else
+  match dec_varint (skipn (doff d) (dbuf d)) with
+  | inr _ => 0
+  | inl (l, n) =>
+      match k with
+      | KFloat => if N.of_nat (length (dbuf d) - (doff d + n)) <? l then 0 else packed_reserve k l
+      | _ => 0
+      end
   end.
 
 (* DecodeNested: [nested b] is the nested message's Unmarshal on exactly b (true = nil error) *)
 Definition dec_nested (nested : list byte -> bool) (d : decoder) : dres (list byte) :=
   if at_eof d then DErr d else
-  match dec_varint (drest d) with
+  go_from (dbuf d) (doff d) (fun rest =>
+  match dec_varint rest with
   | inr _ => DErr d
   | inl (l, n) =>
       if max_len <? l then DErr d
       else if N.of_nat (length (dbuf d)) <? N.of_nat (doff d + n) + l then DErr d
       else let nb := N.to_nat l in
-           let b := slice (dbuf d) (doff d + n) (doff d + n + nb) in
-           if nested b then DOk b (dadv d (n + nb)) else DErr d
-  end.
+           go_sub (dbuf d) (doff d + n) (doff d + n + nb) (fun b =>
+           if nested b then DOk b (dadv d (n + nb)) else DErr d)
+  end).
 
 (* Skip *)
-Definition dec_skip (d : decoder) (tag wt : N) : dres (list byte) :=
+Definition dec_skip (d : decoder) (tag wt : Z) : dres (list byte) :=
   if at_eof d then DErr d else
-  let sz := size_key tag in
+  let sz := size_key (u64z tag) in           (* SizeOfTagKey(tag) = SizeOfVarint(uint64(uint(tag) << 3)) *)
   let bof := (doff d - sz)%nat in
-  let key_ok :=
-    if dfast d then true else
-    match dec_varint (skipn bof (dbuf d)) with
-    | inr _ => false
-    | inl (v, n) => (n =? sz)%nat && (N.shiftr v 3 =? tag) && (N.land v 7 =? wt)
-    end in
-  if negb key_ok then DErr d else
-  let fin (skipped : nat) :=
-      if (length (dbuf d) <? doff d + skipped)%nat then DErr d
-      else DOk (slice (dbuf d) bof (doff d + skipped)) (dadv d skipped) in
-  if wt =? 0 then match dec_varint (drest d) with inr _ => DErr d | inl (_, n) => fin n end
-  else if wt =? 1 then fin 8%nat
-  else if wt =? 5 then fin 4%nat
-  else if wt =? 2 then
-    match dec_varint (drest d) with
-    | inr _ => DErr d
-    | inl (l, n) => if max_len <? l then DErr d
-                    else if N.of_nat (length (dbuf d)) <? N.of_nat (doff d + n) + l then DErr d
-                    else fin (n + N.to_nat l)%nat
-    end
-  else DErr d.
+  let after_key_check :=
+    let fin (skipped : nat) :=
+        if (length (dbuf d) <? doff d + skipped)%nat then DErr d
+        else go_sub (dbuf d) bof (doff d + skipped) (fun raw => DOk raw (dadv d skipped)) in
+    if (wt =? 0)%Z then
+      go_from (dbuf d) (doff d) (fun rest =>
+      match dec_varint rest with inr _ => DErr d | inl (_, n) => fin n end)
+    else if (wt =? 1)%Z then fin 8%nat
+    else if (wt =? 5)%Z then fin 4%nat
+    else if (wt =? 2)%Z then
+      go_from (dbuf d) (doff d) (fun rest =>
+      match dec_varint rest with
+      | inr _ => DErr d
+      | inl (l, n) => if max_len <? l then DErr d
+                      else if N.of_nat (length (dbuf d)) <? N.of_nat (doff d + n) + l then DErr d
+                      else fin (n + N.to_nat l)%nat
+      end)
+    else DErr d in
+  if dfast d then after_key_check else
+  go_from (dbuf d) bof (fun kb =>
+  match dec_varint kb with
+  | inr _ => DErr d
+  | inl (v, n) =>
+      if (n =? sz)%nat && (Z.of_N (N.shiftr v 3) =? tag)%Z && (Z.of_N (N.land v 7) =? wt)%Z
+      then after_key_check else DErr d
+  end).
 
 (* Seek: pos := int(offset) (+ offset / + len) with int64 wrap-around; whence 0/1/2 *)
 Definition wrap64 (z : Z) : Z := i64n (u64z z).
@@ -373,7 +428,7 @@ Definition dec_seek (d : decoder) (o : Z) (whence : Z) : dres Z :=
 
 Inductive dop :=
 | DTag | DScalar (k : skind) | DBytes | DString | DPacked (k : skind) | DNested
-| DSkip (tag wt : N) | DSeek (o : Z) (whence : Z) | DReset | DSetMode (fast : bool).
+| DSkip (tag wt : Z) | DSeek (o : Z) (whence : Z) | DReset | DSetMode (fast : bool).
 
 Inductive dval :=
 | VTag (t wt : N) | VNum (z : Z) | VBytes (b : list byte) (aliases_input : bool)
